@@ -4,7 +4,9 @@
 #   usage: tools/run_mutants.sh [--baseline] [pattern]
 # With --baseline the repository's own test suite is run on each mutant as well (slow).
 set -u
-V=/verif; R=/repo
+V=/verif; R=${MUT_REPO:-/repo}
+# MUT_REPO=<worktree of /repo> runs the whole experiment on a private copy (own work dir), leaving /repo free
+if [ "$R" != /repo ]; then export VERIF_REPO=$R VERIF_WORKDIR=$V/.work-mut VERIF_OUT_DIR=$V/.work-mut/out; mkdir -p $V/.work-mut/out; fi
 export GOFLAGS=-mod=mod GOPROXY=off GOSUMDB=off GOTOOLCHAIN=local
 BASE=0; PAT=""
 for a in "$@"; do case "$a" in --baseline) BASE=1;; *) PAT="$a";; esac; done
@@ -22,7 +24,7 @@ for d in $V/mutants/*${PAT}*.diff; do
   git -C $R apply $d
   b=ok; (cd $R && go build ./... 2>/dev/null) || b=FAIL
   t="-"
-  if [ $BASE = 1 ] && [ $b = ok ]; then if $V/tools/baseline.sh >/dev/null 2>&1; then t=pass; else t=FAIL; fi; fi
+  if [ $BASE = 1 ] && [ $b = ok ]; then if $V/tools/baseline.sh $R >/dev/null 2>&1; then t=pass; else t=FAIL; fi; fi
   for c in $checks; do
     n=$((n+1))
     if [ $b != ok ]; then echo "| $id | $prop | $b | $t | $c | NOT-COMPILING | |" >> $TMP; continue; fi
@@ -35,6 +37,5 @@ for d in $V/mutants/*${PAT}*.diff; do
   git -C $R checkout -- . && git -C $R clean -fdq
 done
 { echo "# Mutant run $(date -u +%FT%TZ) on /repo $(git -C $R log --format=%h -1) — $n check runs, $miss misses by the owning property's check"; echo; cat $TMP; } > $OUT
-rm -f $TMP $V/replays/*/*.json 2>/dev/null
-rmdir $V/replays/* 2>/dev/null
+rm -f $TMP
 echo "done: $miss misses"; exit 0
